@@ -50,12 +50,12 @@ func vFinderVsNaive(plo, phi, tmax int) {
 }
 
 // verif:desc C04-O1 Boyer-Moore is complete: stringsearch.NewFinder(pattern).Next(text) (bad-character and good-suffix tables built by the real constructor over the symbolic pattern) returns exactly the index of the first occurrence found by a naive window scan, and -1 iff there is none.
-// verif:bounds pattern length 2..3, text length 0..5, all bytes symbolic (any of 256 values)
+// verif:bounds pattern length 2..3, text length 0..7, all bytes symbolic (any of 256 values)
 // verif:outside longer patterns/texts (see the thorough harness); CaseFinder (C04-O2)
 // verif:unwind 32
 // verif:solver z3-new
 func VerifH_C04_O1_finder() {
-	vFinderVsNaive(2, 3, 5)
+	vFinderVsNaive(2, 3, 7)
 }
 
 // verif:desc C04-O1 (thorough bound) as VerifH_C04_O1_finder with pattern length 1..4 and text length 0..8
@@ -67,26 +67,3 @@ func VerifH_C04_O1_finder_thorough() {
 	vFinderVsNaive(1, 4, 8)
 }
 
-// verif:desc experiment
-// verif:bounds x
-// verif:solver z3-new
-func VerifH_C04_O1x_a() {
-	pattern := verif.StringN("pattern", 3)
-	text := verif.StringN("text", 4)
-	f := NewFinder(pattern)
-	got := f.Next(text)
-	verif.Assert(got == vNaive(text, pattern), "x")
-	verif.Reach("end")
-}
-
-// verif:desc experiment
-// verif:bounds x
-// verif:solver z3-new
-func VerifH_C04_O1x_b() {
-	pattern := verif.StringN("pattern", 3)
-	text := verif.StringN("text", 5)
-	f := NewFinder(pattern)
-	got := f.Next(text)
-	verif.Assert(got == vNaive(text, pattern), "x")
-	verif.Reach("end")
-}
